@@ -180,6 +180,7 @@ func (l *leader) addReplication(n Node) {
 		log:            l.storage.log.ViewAt(l.removeLTE, l.lastLogIndex),
 		snaps:          l.storage.snaps,
 		stopCh:         make(chan struct{}),
+		done:           make(chan struct{}),
 		replUpdateCh:   l.replUpdateCh,
 		leaderUpdateCh: make(chan leaderUpdate, 1),
 	}
@@ -197,6 +198,7 @@ func (l *leader) addReplication(n Node) {
 	verifReplRunning(l.Raft, 1)
 	go func() {
 		defer l.wg.Done()
+		defer close(repl.done)
 		defer verifReplRunning(l.Raft, -1)
 		repl.runLoop(req)
 		if trace {
